@@ -466,6 +466,64 @@ func RunScenario(sc Scenario, maxRbuf uint64) result {
 		for i := 0; i < want+2; i++ {
 			s.ReleaseHandler(1)
 		}
+	case "aftererr":
+		// deterministic experiment for C11's after-error clause with an error raised
+		// by ANOTHER goroutine: the application is busy in the handler of the first
+		// message, more permitted messages are already queued, then readLoop fails
+		// on garbage (odd seeds) or the protocol is stopped from outside (even
+		// seeds); only then the handler returns.  recvLoop is inside the handler at
+		// the stop, so no transition request can be in flight.
+		var first uint8
+		var follow []uint8
+		switch p.Name {
+		case "blockfetch":
+			first, follow = 0, []uint8{2, 4, 4, 4} // RequestRange; StartBatch, Block x3
+		default: // chain-sync
+			first, follow = 0, []uint8{1, 2} // RequestNext; AwaitReply, RollForward
+		}
+		send(first, 10)
+		s.Settle()
+		s.HandlerGate = make(chan struct{})
+		var buf []byte
+		for _, t := range follow {
+			buf = append(buf, RawMsg(t, 20+r.Intn(200), 5)...)
+		}
+		s.PeerWriteOrdered(fragment(buf, r))
+		want := len(follow)
+		s.WaitFor(func(ev []Event) bool {
+			n, h := 0, 0
+			for _, e := range ev {
+				if e.Kind == protocol.VerifEvAdmit {
+					n++
+				}
+				if e.Kind == protocol.VerifEvHandler {
+					h++
+				}
+			}
+			return n >= want && h >= 1
+		})
+		s.Settle()
+		if sc.Seed%2 == 1 {
+			note("handler busy, %d messages queued; peer sends garbage", want-1)
+			s.PeerWriteOrdered([][]byte{{0xff, 0xff}})
+			s.WaitFor(func(ev []Event) bool {
+				for _, e := range ev {
+					if e.Kind == protocol.VerifEvSendErrStop {
+						return true
+					}
+				}
+				return false
+			})
+		} else {
+			note("handler busy, %d messages queued; external Stop", want-1)
+			s.P.VerifNote(noteStop, 1, nil)
+			go s.P.Stop()
+		}
+		time.Sleep(2 * time.Millisecond)
+		s.afterErrMark = true
+		for i := 0; i < want+1; i++ {
+			s.ReleaseHandler(1)
+		}
 	case "sendlimit":
 		// pendingSendBytes limit of the current state
 		_, e := curEntry()
@@ -642,6 +700,28 @@ func (res *result) monitor(s *Session, evs []Event, wire []byte, enq []uint64) {
 			}
 		}
 	}
+	// C11 after-error experiment: nothing may reach the handler after the stop
+	if s.afterErrMark {
+		var stopSeq uint64
+		for _, e := range evs {
+			if e.Kind == protocol.VerifEvSendErrStop || (e.Kind == protocol.VerifEvNote && e.A == noteStop && e.B == 1) {
+				stopSeq = e.Seq
+				break
+			}
+		}
+		late := 0
+		for _, e := range evs {
+			if stopSeq != 0 && e.Kind == protocol.VerifEvHandler && e.Seq > stopSeq {
+				late++
+			}
+		}
+		if stopSeq == 0 {
+			add("c11:aftererr-no-stop:"+p.Name, "the scripted stop did not happen")
+		}
+		if late > 0 {
+			add("c11:handler-after-foreign-stop:"+p.Name, fmt.Sprintf("%d queued message(s) reached the handler after the protocol had been stopped by another goroutine while recvLoop was inside a handler call", late))
+		}
+	}
 	// C12: send transitions happen in enqueue order, each once
 	for i, id := range sendTrans {
 		if i >= len(enq) || enq[i] != id {
@@ -713,22 +793,29 @@ func RunAll(c *vh.Ctx, prop string) error {
 	for _, sc := range scs {
 		c.Begin(map[string]any{"scenario": sc})
 		t0 := time.Now()
-		res := RunScenario(sc, maxRbuf)
+		var results []result
+		if sc.Kind == "duplex" {
+			results = RunDuplex(sc, maxRbuf)
+		} else {
+			results = []result{RunScenario(sc, maxRbuf)}
+		}
 		if os.Getenv("VERIF_TIMING") != "" {
-			fmt.Fprintf(os.Stderr, "%-14s %-18s server=%v labels=%d %v\n", sc.Kind, sc.Proto, sc.Server, len(res.tr.Labels), time.Since(t0))
+			fmt.Fprintf(os.Stderr, "%-14s %-18s server=%v labels=%d %v\n", sc.Kind, sc.Proto, sc.Server, len(results[0].tr.Labels), time.Since(t0))
 		}
-		rep := map[string]any{"scenario": sc, "script": res.script, "labels": len(res.tr.Labels), "notes": res.tr.Notes}
-		nontrivial := len(res.tr.States) >= 1 && len(res.tr.Labels) >= 8
-		c.Res.Count(strings.Join(res.tr.Labels, ";"), nontrivial, sc.Kind+"/"+sc.Proto)
-		if nontrivial {
-			c.Res.Sample(map[string]any{"scenario": sc, "labels": len(res.tr.Labels), "handler_calls": len(res.tr.Handler), "transitions": len(res.tr.States), "err": res.tr.Err})
-		}
-		for _, v := range res.viol {
-			if strings.HasPrefix(v.key, keyFor(prop)) {
-				c.Res.Violate("monitor", v.key, v.what, rep)
+		for _, res := range results {
+			rep := map[string]any{"scenario": sc, "side_server": res.sc.Server, "script": res.script, "labels": len(res.tr.Labels), "notes": res.tr.Notes}
+			nontrivial := len(res.tr.States) >= 1 && len(res.tr.Labels) >= 8
+			c.Res.Count(strings.Join(res.tr.Labels, ";"), nontrivial, sc.Kind+"/"+sc.Proto)
+			if nontrivial {
+				c.Res.Sample(map[string]any{"scenario": sc, "labels": len(res.tr.Labels), "handler_calls": len(res.tr.Handler), "transitions": len(res.tr.States), "err": res.tr.Err})
 			}
+			for _, v := range res.viol {
+				if strings.HasPrefix(v.key, keyFor(prop)) {
+					c.Res.Violate("monitor", v.key, v.what, rep)
+				}
+			}
+			cf.Add(CoqCase(sc.Sm, res.sc.Server, res.rq, res.tr, res.wire), rep)
 		}
-		cf.Add(CoqCase(sc.Sm, sc.Server, res.rq, res.tr, res.wire), rep)
 	}
 	cf.Flush()
 	return nil
@@ -759,6 +846,9 @@ func scenarios(c *vh.Ctx, prop string) []Scenario {
 				add("adversarial", i, true, 4+r.Intn(8))
 			}
 		}
+		for rep := 0; rep < c.Pick(6, 60); rep++ {
+			add("aftererr", []int{idx["blockfetch"], idx["chainsync_ntn"]}[rep%2], false, 1)
+		}
 		add("errfull", idx["chainsync_ntn"], false, 6)
 		add("errfull", idx["blockfetch"], true, 6)
 	case "C12":
@@ -776,6 +866,17 @@ func scenarios(c *vh.Ctx, prop string) []Scenario {
 		}
 		for rep := 0; rep < c.Pick(4, 30); rep++ {
 			add("adversarial", r.Intn(6), r.Bool(), 4+r.Intn(6))
+		}
+		// two real engines talking to each other on conforming conversations
+		for rep := 0; rep < c.Pick(1, 5); rep++ {
+			for i, p := range ps {
+				if p.Run {
+					add("duplex", i, false, 6+r.Intn(30))
+				}
+			}
+		}
+		for rep := 0; rep < c.Pick(3, 12); rep++ { // chain-sync with deep pipelining
+			add("duplex", idx["chainsync_ntn"], false, 20+r.Intn(40))
 		}
 		add("sendlimit", idx["chainsync_ntn"], false, 1)
 		add("sendlimit", idx["blockfetch"], false, 1)
